@@ -259,6 +259,92 @@ class Body:
                     st.append(s)
         return seen
 
+    # -- one-bit path sensitivity -------------------------------------------------------------
+    def flag_locals(self):
+        """bool locals that are assigned only constants (whole-local), never borrowed, and that
+        control at least one switch (directly or through a `tmp = copy flag` temp).
+        returns (flags set, switch_ctl: bb -> flag)"""
+        if hasattr(self, "_flags"):
+            return self._flags
+        cand = set()
+        for l, ld in enumerate(self.locals):
+            if ld["ty"] != "bool" or l == 0 or (1 <= l <= self.argc):
+                continue
+            ds = self.defs().get(l, [])
+            if not ds or self.defs().get(("p", l)) or self.defs().get(("s", l)):
+                continue
+            if all(k == "assign" and o["rv"]["k"] == "use" and o["rv"]["op"]["k"] == "const" and o["rv"]["op"].get("int") in ("0", "1") for (b, i, k, o) in ds):
+                cand.add(l)
+        # drop borrowed ones
+        for b in range(self.n):
+            for st in self.blocks[b]["s"]:
+                if st["k"] == "assign" and st["rv"]["k"] in ("ref", "rawptr") and st["rv"]["pl"]["l"] in cand:
+                    cand.discard(st["rv"]["pl"]["l"])
+        ctl = {}
+        for b in range(self.n):
+            t = self.blocks[b]["t"]
+            if t["k"] != "switch" or t["d"]["k"] not in ("copy", "move") or t["d"]["pl"].get("p"):
+                continue
+            l = t["d"]["pl"]["l"]
+            if l in cand:
+                ctl[b] = l
+                continue
+            ds = self.defs().get(l, [])
+            if len(ds) == 1 and ds[0][2] == "assign":
+                rv = ds[0][3]["rv"]
+                if rv["k"] == "use" and rv["op"]["k"] in ("copy", "move") and not rv["op"]["pl"].get("p") and rv["op"]["pl"]["l"] in cand:
+                    # the temp must be defined in the same block as the switch (no reordering issues)
+                    if ds[0][0] == b:
+                        ctl[b] = rv["op"]["pl"]["l"]
+        flags = set(ctl.values())
+        self._flags = (flags, ctl)
+        return self._flags
+
+    def reachable_flags(self, starts, removed=frozenset(), limit=60000):
+        """like reachable(), but infeasible edges of switches on constant-only boolean flags are not
+        followed (flag values are tracked from the start blocks on, initially unknown)."""
+        flags, ctl = self.flag_locals()
+        if not flags:
+            return self.reachable(starts, removed)
+        order = sorted(flags)
+        idx = {f: i for i, f in enumerate(order)}
+        init = tuple([None] * len(order))
+        seen = set()
+        out = set()
+        st = [(s, init) for s in starts if s not in removed]
+        while st:
+            b, vals = st.pop()
+            if (b, vals) in seen:
+                continue
+            seen.add((b, vals))
+            if len(seen) > limit:
+                return self.reachable(starts, removed)
+            out.add(b)
+            v = list(vals)
+            for s_ in self.blocks[b]["s"]:
+                if s_["k"] == "assign" and not s_["pl"].get("p") and s_["pl"]["l"] in idx:
+                    rv = s_["rv"]
+                    if rv["k"] == "use" and rv["op"]["k"] == "const":
+                        v[idx[s_["pl"]["l"]]] = int(rv["op"].get("int", "0"))
+                    else:
+                        v[idx[s_["pl"]["l"]]] = None
+            vt = tuple(v)
+            t = self.blocks[b]["t"]
+            succs = self.succ(b)
+            if b in ctl and v[idx[ctl[b]]] is not None:
+                val = v[idx[ctl[b]]]
+                tgt = None
+                for (sv, sb) in t["vals"]:
+                    if int(sv) == val:
+                        tgt = sb
+                if tgt is None:
+                    tgt = t["else"]
+                succs = [tgt]
+            for s_ in succs:
+                if s_ not in removed:
+                    st.append((s_, vt))
+        return out
+
     def dominators(self, removed=frozenset()):
         """immediate-dominator style: returns dict block -> set of dominators (incl. itself) over the
         normal-edge CFG with `removed` blocks deleted.  Unreachable blocks are absent."""
@@ -358,7 +444,11 @@ class Body:
     def ok_removed(self):
         """blocks removed in the Ok-pruned CFG: error blocks and cleanup blocks."""
         if not hasattr(self, "_okrem"):
-            self._okrem = frozenset(self.err_blocks() | {b for b in range(self.n) if self.is_cleanup(b)})
+            self._okrem = frozenset(
+                self.err_blocks()
+                | {b for b in range(self.n) if self.is_cleanup(b)}
+                | {b for b in range(self.n) if self.blocks[b]["t"]["k"] in ("unreachable", "resume", "terminate")}
+            )
         return self._okrem
 
     def ok_returns(self):
